@@ -84,6 +84,7 @@ impl Ctx {
             .ok()
             .and_then(|s| s.parse().ok())
             .unwrap_or(0);
+        let _ = std::fs::remove_dir_all(verif_dir().join("replays").join(id));
         Ctx {
             id,
             level,
